@@ -14,6 +14,8 @@
 import Varlink.Idl.Parser
 import Varlink.Idl.Printer
 import VarlinkProofs.Lemmas.IdlStrip
+import Varlink.Extracted.Code
+import Varlink.ExpectedCode
 namespace Varlink.C06
 open Varlink Varlink.Idl
 
@@ -109,5 +111,11 @@ example : ∀ t, WFlib t → strip [] ≠ strip (print t) := by
   intro t ht h
   rw [strip_print t ht.1] at h
   simp [strip, stripAux, toks, tInterface] at h
+
+/-- **Tie to the source**: the declarations of /repo that this property's model transliterates
+    (`Extracted.codeNames_C06`) have, in the current working tree, exactly the fingerprints of the code the
+    model was validated against. Any change to them breaks this obligation; the check then searches the
+    correspondence streams for an input on which the changed code violates the property. -/
+theorem modelled_code_unchanged : Varlink.Extracted.code_C06 = Varlink.ExpectedCode.code_C06 := by decide
 
 end Varlink.C06
